@@ -347,8 +347,8 @@ PROPS["C06"] = {
     "exhaustive": True,
     "technique": "TLC enumeration of the objective case table (Objective.tla: loss, documented gradient, clamp, symbolic derivative) + replay into "
                  "objective::Function::loss with term evaluation",
-    "level_text": "TLC enumerates objective x gradient clamp (none / symmetric / one-sided / degenerate) x shape (flat and 3-D) x a boundary grid of "
-                  "targets and predictions (0, eps, 1/4, 1/2, 3/4, 1-eps, 1; all 49 pairs for single elements, rotations for several), builds the "
+    "level_text": "TLC enumerates objective x gradient clamp (none / symmetric / one-sided / degenerate / excluding zero) x shape (flat and 3-D) x a boundary grid of "
+                  "targets and predictions (0, eps, 1/4, 1/2, 3/4, 1-eps, 1, a subnormal; all 64 pairs for single elements, rotations for several), builds the "
                   "reported-loss term, the documented per-element gradient, its clamped form and -- for AE, MSE, BCE and KL -- the symbolic "
                   "derivative of the loss term; every case is replayed on the grid data and on seeded in-domain floats: loss and gradient "
                   "within 1e-5, gradient shape = prediction shape, components inside the clamp, gradient = derivative of the loss away from "
@@ -358,8 +358,8 @@ PROPS["C06"] = {
     "rule": "one case = one (objective, clamp, shape, grid rotation); each replayed on grid data and on random floats; distinct = distinct "
             "(objective, clamp, shape, data); non-trivial = all",
     "mc": [{"module": "MC_C06",
-            "consts": {"quick": {"Shapes": "{1, 2, 3, 5, 6}", "Offsets": "{0, 1, 2, 3, 4, 5, 6}"},
-                       "thorough": {"Shapes": "{1, 2, 3, 4, 5, 6, 7, 8}", "Offsets": "{0, 1, 2, 3, 4, 5, 6}"}},
+            "consts": {"quick": {"Shapes": "{1, 2, 3, 5, 6}", "Offsets": "{0, 1, 2, 3, 4, 5, 6, 7}"},
+                       "thorough": {"Shapes": "{1, 2, 3, 4, 5, 6, 7, 8}", "Offsets": "{0, 1, 2, 3, 4, 5, 6, 7}"}},
             "workers": 8, "timeout": {"quick": 600, "thorough": 3600}}],
     "assumptions": TERM_ASSUME + ["convention 0 * ln(0/p) = 0 for the KL divergence"],
 }
@@ -412,6 +412,10 @@ PROPS["C01"]["level_note"] += "; the soft-max/cross-entropy clause uses the symb
 
 PROPS["C03"]["record"] = [{"group": "optslots", "trace_module": "Trace_Opt"}]
 PROPS["C03"]["technique"] += " + TLC validation of the slot addressing of real training runs (Trace_Opt / OptSlots.tla)"
+# C04, "exactly one optimizer step per group": every parameter tensor (per layer, per filter, weights / bias) is stepped
+# once per group on its own state slot -- the same recorded runs, validated against OptSlots.tla
+PROPS["C04"]["record"].append({"group": "optslots", "trace_module": "Trace_Opt"})
+PROPS["C04"]["technique"] += " + TLC validation of the per-tensor optimizer calls of real training runs (Trace_Opt / OptSlots.tla)"
 
 LAYER_TERMS = {"module": "MC_LayerTerms",
                "consts": {"quick": {"Acts": '{"leaky", "sigmoid", "tanh"}', "CfgSel": "{1, 2, 3, 4, 5, 6, 7, 8, 9}"},
